@@ -1,4 +1,5 @@
 mod fd;
+mod gen;
 mod frames;
 mod fsecodec;
 mod ring;
@@ -17,6 +18,8 @@ fn main() {
         "ringk" => ring::ringk(rest),
         "fdframes" => fd::fdframes(rest),
         "fdexec" => fd::fdexec(rest),
+        "fdrand" => fd::fdrand(rest),
+        "mkcorpus" => gen::mkcorpus(rest),
         "decbufrand" => ring::decbufrand(rest),
         other => {
             eprintln!("unknown command {other}");
